@@ -38,6 +38,7 @@ def main():
     res.append(harmless('methods2lean.py','even: (self + gi)/2',[('clifford/_multivector.py',"return .5*(self + self.gradeInvol())","return (self + self.gradeInvol()) / 2")]))
     res.append(harmless('py2lean.py','imt_check reordered',[(L,"return (grade_v == abs(grade_i - grade_j)) and (grade_i != 0) and (grade_j != 0)","return (grade_i != 0) and (grade_j != 0) and (abs(grade_j - grade_i) == grade_v)")]))
     res.append(harmless('loops2lean.py','cre: a >>= 1 ; sum += ',[('clifford/_layout_helpers.py',"        sum_value = sum_value + count_set_bits(a & bitmap_b)\n        a = a >> 1","        sum_value += count_set_bits(bitmap_b & a)\n        a >>= 1")]))
+    res.append(harmless('loops2lean.py','gmt_element: bitmap_b ^ bitmap_a',[(L,"output_bitmap = bitmap_a^bitmap_b","output_bitmap = bitmap_b ^ bitmap_a")]))
     res.append(harmless('kernels2lean.py','res factor order',[('clifford/__init__.py',"res = value[k_list] * mult_table_vals * other_value[m_list]","res = mult_table_vals * value[k_list] * other_value[m_list]")]))
     res.append(harmless('series2lean.py','sin coefficient (-1)**n * (1/gamma)',[('clifford/taylor_expansions.py',"op = op + ((-1) ** (n) / math.gamma(2 * n + 2)) * X2np1","op = op + ((-1) ** n / math.gamma(2 * n + 2)) * X2np1")]))
     res.append(harmless('methods2lean.py','__pow__: newMV *= base',[('clifford/_multivector.py',"            newMV = newMV * base\n","            newMV *= base\n")]))
